@@ -1,4 +1,5 @@
 import Hoot.Driver.Text
+import Hoot.Model.HeadersMap
 
 /-! Replay of recorded op lines through the model. `stepLine` is pure: (session, line) ↦ (session, output line). -/
 
@@ -180,20 +181,15 @@ def stepLine0 (s : Sess) (l : String) : Sess × String :=
           | .outOfClass => (s.gone, s!"{l} #out-of-class")
       | none => (s, s!"{opText} => str not-offered @gone")
     | ["hmap"] =>
-      -- Flow<SendRequest>::headers_map(): analyse the request (as the first write would), then one value per
-      -- name — the last one among the effective headers — sorted by name
+      -- Flow<SendRequest>::headers_map(): Model/HeadersMap.lean
       match s.flow with
       | some fl =>
         if fl.st != .sendRequest then (s, s!"{opText} => str not-offered @{stName fl.st}") else
-        (match fl.call.analyzeRequest with
-         | (c1, .ok ()) =>
-           let hs := c1.req.headers
-           let names := (hs.map (·.name)).eraseDups
-           let sorted := names.toArray.qsort (· < ·) |>.toList
-           let body := sorted.map fun n => match (hs.filter (·.name == n)).getLast? with
-             | some h => s!" {n} {toHex h.value}" | none => ""
-           ({ s with flow := some { fl with call := c1 } }, s!"{opText} => map {sorted.length}{String.join body} @sendRequest")
-         | (c1, .error (.panic _)) => (s.gone, s!"{opText} => fault panic @gone")
+        (match fl.call.headersMap with
+         | (c1, .ok m) =>
+           let body := m.map fun h => s!" {h.name} {toHex h.value}"
+           ({ s with flow := some { fl with call := c1 } }, s!"{opText} => map {m.length}{String.join body} @sendRequest")
+         | (_, .error (.panic _)) => (s.gone, s!"{opText} => fault panic @gone")
          | (c1, .error f) => ({ s with flow := some { fl with call := c1 } }, s!"{opText} => {showFault f} @sendRequest"))
       | none => (s, s!"{opText} => str not-offered @gone")
     | ["uri?"] =>
